@@ -6,8 +6,10 @@ true when no version is selected or the selected one is outside S.  For all pair
 library's negation, intersection, union, subset test, disjointness test and satisfied / contradicted
 / inconclusive relation coincide with evaluating the terms on every concrete choice."
 
-Theorems are about the model `PubgrubModel/Term.lean` over *any* lawful version set (`Range` over
-any linear order is one, see `C10`/`C17`), for all terms whose sets are valid (canonical), for every
+Theorems are about the model `PubgrubModel/Term.lean` over *any* lawful version set (`Range` over a
+dense linear order without end points and the bit set are such, see `C10`/`C17`; over a discrete order
+"every concrete choice" has to range over the points of the dense completion, as in C10: the harness
+evaluates on the doubled grid), for all terms whose sets are valid (canonical), for every
 choice `c : Option V` (`none` = not selected).  `Term.eval` (in `PubgrubProofs/Defs.lean`) is the
 meaning quoted above.
 -/
